@@ -544,10 +544,11 @@ def tableRange (delta : Int) (o : Nat) (t : Nat × PAtom) : Nat × Nat :=
 def ranges (parents atoms : List PAtom) (delta : Int) (o : Nat) : List (Nat × Nat) :=
   parents.map parentRange ++ (visited atoms).map (tableRange delta o)
 
-/-- the visited table atoms are long enough for the fixed offsets the code reads at
-(`stco`/`co64`: count at +12; `tfhd`: flags at +9, base offset at +16..+24) -/
+/-- the visited table atoms are long enough for the fixed positions the code reads first
+(`stco`/`co64`: the count at +12..+16; `tfhd`: the flags at +9..+12).  A `tfhd` without base data offset
+is 16 bytes long; one with the flag set that is shorter than 24 bytes makes the save raise. -/
 def TablesSized (atoms : List PAtom) : Prop :=
-  ∀ t ∈ visited atoms, if t.1 = 0 then 24 ≤ t.2.length else 12 ≤ t.2.length
+  ∀ t ∈ visited atoms, 12 ≤ t.2.length
 
 /-- where a visited table atom lies after the save -/
 def extentOf (delta : Int) (o : Nat) (t : Nat × PAtom) : Nat × Nat :=
@@ -569,12 +570,16 @@ instance (parents atoms : List PAtom) (delta : Int) (o : Nat) : Decidable (Exten
 /-- the side conditions under which the bookkeeping of a save is analysed: the visited table
 atoms are long enough for the fixed positions the code reads, lie inside the file and avoid the
 replaced region, and (where they lie after the save) they and the size fields of the path atoms
-are pairwise disjoint.  All four hold for a file whose atoms tile it (strict walker) when the
-region is the `ilst`/`free` pair or the insertion point; all four are decidable. -/
+are pairwise disjoint; and the table atoms have the 8-byte header form (the code reads the count /
+flags / base offset at fixed distances from the START of the atom: with a 64-bit size header these
+are not the fields of the payload — see `tblEntries_spec`, `tfhd_spec`).  All hold for a file whose
+atoms tile it (strict walker) with ordinary table headers when the region is the `ilst`/`free` pair or
+the insertion point; all are decidable. -/
 def SaveSafe (f : Bytes) (atoms parents : List PAtom) (o old : Nat) (delta : Int) : Prop :=
   TablesSized atoms ∧ ExtentsDisjoint parents atoms delta o ∧
     (∀ t ∈ visited atoms, Clear o old t.2.offset t.2.length) ∧
-    (∀ t ∈ visited atoms, t.2.offset + t.2.length ≤ f.length)
+    (∀ t ∈ visited atoms, t.2.offset + t.2.length ≤ f.length) ∧
+    (∀ t ∈ visited atoms, t.2.dataoffset = t.2.offset + 8)
 
 instance (atoms : List PAtom) : Decidable (TablesSized atoms) := by unfold TablesSized; infer_instance
 
